@@ -1,6 +1,7 @@
 package interpreter
 
 import (
+	"math/big"
 	"slices"
 
 	"github.com/formancehq/numscript/internal/parser"
@@ -91,7 +92,19 @@ func (st *programState) runBalancesQuery() error {
 	// reset batch query
 	st.CurrentBalanceQuery = BalanceQuery{}
 
-	st.CachedBalances = balances
+	// merge the requested balances into the cache, keeping what previous queries fetched
+	for accountName, queriedCurrencies := range filteredQuery {
+		cachedCurrenciesForAccount := defaultMapGet(st.CachedBalances, accountName, func() AccountBalance {
+			return AccountBalance{}
+		})
+		for _, queriedCurrency := range queriedCurrencies {
+			amount, ok := balances[accountName][queriedCurrency]
+			if !ok {
+				amount = new(big.Int)
+			}
+			cachedCurrenciesForAccount[queriedCurrency] = amount
+		}
+	}
 	return nil
 }
 
